@@ -18,6 +18,7 @@ RULE = (
     "two pin points} x center_coordinates x drop_coords (extra coordinate = 10 x point id) x input 1-D / 2-D C-ordered / 2-D Fortran-ordered or transposed view / mixed layouts / integer-dtype coordinates (both or easting only). quick crosses the full "
     "data-path axis with the default coordinate path and the full coordinate-path axis with two data paths; thorough crosses "
     "everything for the 2x2 layout. Non-trivial: a block with >= 2 members and >= 2 occupied blocks."
+    " Added axes: mixed layouts, integer forms, far offsets, permuted-index Series, weights scaled by 1e-9 / 1e9 and exact zeros, parameter routes starting from another block definition, numpy-array parameters, four non-square layouts in the quick tier."
 )
 ASSUMPTIONS = ["pandas groupby is the trusted platform; the oracle groups with a Python dict and reduces in exact rational arithmetic",
                "values compared at 1e-12 relative (exact for sums/min/max/medians of powers of two)"]
